@@ -20,7 +20,7 @@ from .report import run_property
 
 CLAIMED = [
     "C02", "C03", "C04", "C05", "C06", "C07", "C09", "C10", "C11", "C12",
-    "C16", "C17", "C20", "C21", "C22", "C23", "C24", "C25", "C26", "C27", "C28", "C29",
+    "C16", "C17", "C19", "C20", "C21", "C22", "C23", "C24", "C25", "C26", "C27", "C28", "C29",
 ]  # fmt: skip
 
 
